@@ -812,7 +812,12 @@ func (e *Enc) tagOf(t types.Type) int {
 	if id, ok := e.g.tags[k]; ok {
 		return id
 	}
-	id := len(e.g.tags) + 1
+	for i, o := range e.g.tagTypes {
+		if types.Identical(o, t) {
+			return i + 1
+		}
+	}
+	id := len(e.g.tagTypes) + 1
 	e.g.tags[k] = id
 	e.g.tagTypes = append(e.g.tagTypes, t)
 	return id
@@ -1224,6 +1229,13 @@ func (fr *Frame) binop(v *ssa.BinOp, st *State) {
 		} else {
 			nv := fr.bind(v, wrapInt("(bor "+x.T+" "+y.T+")", v.Type()))
 			e.assume(st.pc, sImp(sAnd("(>= "+x.T+" 0)", "(>= "+y.T+" 0)"), sAnd("(>= "+nv.T+" "+x.T+")", "(>= "+nv.T+" "+y.T+")", "(<= "+nv.T+" (+ "+x.T+" "+y.T+"))")))
+			// a | (b << k) == a + (b << k) when a < 2^k: the shifted operand has k zero low bits
+			for _, pr := range [][2]ssa.Value{{v.X, v.Y}, {v.Y, v.X}} {
+				if k, ok := shlConst(pr[1]); ok {
+					o, sh := fr.val(pr[0]), fr.val(pr[1])
+					e.assume(st.pc, sImp("(and (<= 0 "+o.T+") (< "+o.T+" "+pow2(k)+"))", "(= "+nv.T+" (+ "+o.T+" "+sh.T+"))"))
+				}
+			}
 			e.abstr["non-constant | uninterpreted (bounded by operands) in "+fr.key] = true
 		}
 	case token.XOR:
@@ -1364,5 +1376,22 @@ func (fr *Frame) backEdgeFrames(h *ssa.BasicBlock, li *loopInfo, st *State) {
 		cur := e.get(st, lf.comp, lf.sort)
 		e.oblige("inv.preserved", fmt.Sprintf("loop%d:frame:%s", li.ord, lf.comp), st.pc,
 			sImp(cond, sEq(sSel(cur, "r!loop"), sSel(lf.ent, "r!loop"))), nil, blockPos(h), "objects outside the modifies clause are unchanged by the loop")
+	}
+}
+
+func shlConst(v ssa.Value) (int, bool) {
+	for {
+		switch x := v.(type) {
+		case *ssa.Convert:
+			v = x.X
+			continue
+		case *ssa.BinOp:
+			if x.Op == token.SHL {
+				if c, ok := constInt(x.Y); ok && c > 0 && c < 64 {
+					return int(c), true
+				}
+			}
+		}
+		return 0, false
 	}
 }
